@@ -35,6 +35,8 @@ ApplyEv(s, e) ==
   CASE e.op = "init" -> [s EXCEPT !.G = PAddQuads(EmptyDs, SeqToSet(e.quads))]
     [] e.op = "tx_add" -> [G |-> PAdd(s.G, e.g, e.t), snap |-> Begin(s, e.w),
                            touched |-> FPut(s.touched, e.w, FGet(s.touched, e.w, {}) \cup {<<e.t, e.g>>})]
+    [] e.op = "tx_addN" -> [G |-> PAddQuads(s.G, SeqToSet(e.quads)), snap |-> Begin(s, e.w),
+                            touched |-> FPut(s.touched, e.w, FGet(s.touched, e.w, {}) \cup {<<T3(q), q[4]>> : q \in SeqToSet(e.quads)})]
     [] e.op = "tx_remove" -> [G |-> PRemove(s.G, e.g, e.pat), snap |-> Begin(s, e.w),
                               touched |-> FPut(s.touched, e.w, FGet(s.touched, e.w, {}) \cup {<<e.pat, e.g>>})]
     [] e.op = "commit" -> [G |-> s.G, snap |-> FDrop(s.snap, e.w), touched |-> FPut(s.touched, e.w, {})]
@@ -50,7 +52,7 @@ Clause(e) == CASE e.op = "rollback" -> "RollbackRestores"
                [] OTHER             -> "StoreEffect"
 
 Judge(s, e) ==
-  IF e.op \notin {"init", "tx_add", "tx_remove", "commit", "rollback"} THEN "UnknownEvent"
+  IF e.op \notin {"init", "tx_add", "tx_addN", "tx_remove", "commit", "rollback"} THEN "UnknownEvent"
   ELSE IF Has(e, "raise") THEN "OpRaised"
   ELSE IF ~Has(e, "base") THEN "ok"
   ELSE LET s2 == ApplyEv(s, e) IN
